@@ -362,15 +362,15 @@ def run(ctx):
             if A["exc"] is None:
                 ctx.fail("UMAP.fit:malformed_accepted:" + name, "malformed precomputed_knn (%s) did not raise" % name, dict(malformed=name, force=force, X=X))
             dec_terms.append("(%s, %s)" % (input_term(c), obs_term(A))); dec_meta.append(dict(malformed=name, force=force, X=X))
-    if thorough:
-        # above the threshold: the pruning branch of the original chain; exact tables by brute force
+    if True:
+        # above the threshold: the pruning branch of the original chain; exact tables by brute force (quick: two wide-table cases)
         from sklearn.neighbors import NearestNeighbors
         n = 4200
         Xb = npr.normal(size=(n, 5)).astype(np.float32)
         nn = NearestNeighbors(n_neighbors=12, algorithm="brute").fit(Xb)
         bd, bi = nn.kneighbors(Xb)
-        for k, cols in ((5, 5), (5, 8), (8, 12), (8, 7)):
-            for rows in (n, n - 1):
+        for k, cols in (((5, 5), (5, 8), (8, 12), (8, 7)) if thorough else ((5, 8),)):
+            for rows in ((n, n - 1) if thorough else (n,)):
                 for force in (False, True):
                     c = dict(n=n, k=k, cols=cols, rows=rows, force=force, tuple="2", dtype="float32", provided=True, unique=False,
                              idx_array=True, dist_array=True, same_shape=True, has_index=False)
